@@ -741,7 +741,7 @@ fn check_send_side(seed: u64, rep: &mut Report) {
     let mut rng = Rng::new(seed);
     let o = GenOpts { max_body: 200, ..Default::default() };
     let c = c01::gen_case(&mut rng, &o, 2);
-    let r = c01::run_exchange::<Bytes>(&c, 2_000_000);
+    let r = c01::run_exchange::<Bytes>(&c, 20_000_000);
     rep.evaluations += 1;
     let case = c01::describe(&c);
     if r.end == RunEnd::StepCap || r.panic.is_some() {
